@@ -42,13 +42,19 @@ def cubicSolve (a b c d : Cx K) : Array (Cx K) :=
     let sq := csqrt (mulR a (-(ofNat 27 : K)) * a * dis)
     -- the sign that avoids cancellation: |d1 ± sq|² = |d1|² + |sq|² ± 2 Re(conj d1 · sq)
     let base := divRT (if ScalarExt.lt (conj d1 * sq).re 0 then d1 - sq else d1 + sq) (ofNat 2)
-    let k := cpow base ⟨ofNat 1 / ofNat 3, 0⟩
-    let r0 := divT (-(b + k + divT d0 k)) (nmul 3 a)
-    let u : Cx K := ⟨-half, sqrt (ofNat 3) / ofNat 2⟩
-    let r1 := divT (-(b + u * k + divT d0 (u * k))) (nmul 3 a)
-    let u2 := u * u
-    let r2 := divT (-(b + u2 * k + divT d0 (u2 * k))) (nmul 3 a)
-    #[r0, r1, r2]
+    -- (fix D12) `base` can vanish in floating point although `d0`, `d1` did not both: the roots then
+    -- coincide to working precision; the cube root of 0 and `d0 / k` would give NaN
+    if base == 0 then
+      let r := divT (-b) (nmul 3 a)
+      #[r, r, r]
+    else
+      let k := cpow base ⟨ofNat 1 / ofNat 3, 0⟩
+      let r0 := divT (-(b + k + divT d0 k)) (nmul 3 a)
+      let u : Cx K := ⟨-half, sqrt (ofNat 3) / ofNat 2⟩
+      let r1 := divT (-(b + u * k + divT d0 (u * k))) (nmul 3 a)
+      let u2 := u * u
+      let r2 := divT (-(b + u2 * k + divT d0 (u2 * k))) (nmul 3 a)
+      #[r0, r1, r2]
 
 /-- `f64::is_finite` : `x - x == 0` fails exactly for ±inf and NaN -/
 def isFinite (x : K) : Bool := (x - x) == 0
